@@ -505,8 +505,6 @@ def main(ctx):
     # (new strata are drawn after all the others so that the cases of the older streams stay the same for a given seed)
     cases += [gen_chi_ramp(rng) for _ in range(ctx.pick(20, 200) * mult)]
     cases += [gen_inf_hc(rng, k) for k in range(ctx.pick(8, 48))]
-    if os.environ.get('VERIF_C13_ONLY_NEW'):
-        cases = [c for c in cases if c.get('stream') in ('dmrg-finite-chi-ramp', 'dmrg-infinite-plus-hc')]
     for c in common.corpus_cases('C13'):
         cases.append(c['case'])
     results = run_chunks(ctx, cases)
